@@ -515,26 +515,31 @@ def prev_minus_new(model: Model, fi: FuncInfo) -> dict:
     x = out['table']
     if x is None:
         return out
+    # the table may be handed on under another name (built in a helper, returned, bound to a local)
+    from ..alpha import Loc
+
+    xs = sorted(Loc(model, fi).aliases(x))
     for lp in loops:
         if isinstance(lp.iter, ast.Name) and lp.iter.id == new and isinstance(lp.target, ast.Name):
-            for pat in ('V_x.pop(V_n.index(), None)', 'V_x.pop(V_n.index())'):
-                for n, b in afind(pat, lp, {'V_x': x, 'V_n': lp.target.id}):
-                    out['pruned'] = True
-                    out['prune_nodes'].append(n)
-            for n in walk_no_nested(lp):
-                if isinstance(n, ast.Delete) and any(amatch('V_x[V_n.index()]', t, {'V_x': x, 'V_n': lp.target.id}) is not None for t in n.targets):
-                    out['pruned'] = True
-                    out['prune_nodes'].append(n)
+            for xa in xs:
+                for pat in ('V_x.pop(V_n.index(), None)', 'V_x.pop(V_n.index())'):
+                    for n, b in afind(pat, lp, {'V_x': xa, 'V_n': lp.target.id}):
+                        out['pruned'] = True
+                        out['prune_nodes'].append(n)
+                for n in walk_no_nested(lp):
+                    if isinstance(n, ast.Delete) and any(amatch('V_x[V_n.index()]', t, {'V_x': xa, 'V_n': lp.target.id}) is not None for t in n.targets):
+                        out['pruned'] = True
+                        out['prune_nodes'].append(n)
     for lp in loops:
         if not isinstance(lp.target, ast.Name):
             continue
         k = lp.target.id
-        over_keys = any(amatch(p, lp.iter, {'V_x': x}) is not None for p in ('list(V_x)', 'list(V_x.keys())', 'sorted(V_x)'))
-        over_vals = any(amatch(p, lp.iter, {'V_x': x}) is not None for p in ('list(V_x.values())', 'V_x.values()', 'tuple(V_x.values())'))
+        over_keys = any(amatch(p, lp.iter, {'V_x': xa}) is not None for xa in xs for p in ('list(V_x)', 'list(V_x.keys())', 'sorted(V_x)'))
+        over_vals = any(amatch(p, lp.iter, {'V_x': xa}) is not None for xa in xs for p in ('list(V_x.values())', 'V_x.values()', 'tuple(V_x.values())'))
         for c in model.calls_to(fi.module, lp, 'OutgoingRIB.del_from_rib'):
             if not c.args:
                 continue
-            if over_keys and any(amatch(p, c.args[0], {'V_x': x, 'V_k': k}) is not None for p in ('V_x.pop(V_k)', 'V_x[V_k]')):
+            if over_keys and any(amatch(p, c.args[0], {'V_x': xa, 'V_k': k}) is not None for xa in xs for p in ('V_x.pop(V_k)', 'V_x[V_k]')):
                 out['withdrawn'].append(c)
             elif over_vals and isinstance(c.args[0], ast.Name) and c.args[0].id == k:
                 out['withdrawn'].append(c)
